@@ -221,6 +221,9 @@ func checkCombinatorShapes(c *Ctx, rule, mapperPkg string) map[token.Pos]bool {
 	return env.covered
 }
 
+// shapeIncomplete: mapper packages (path relative to the module) for which some combinator expression was not understood
+var shapeIncomplete = map[string]bool{}
+
 func isCombParser(t types.Type) bool {
 	p, n := namedTypeName(t)
 	return p == depPath+"/parser/combinator" && n == "Parser"
@@ -322,6 +325,12 @@ func (env *combEnv) evalParser(e ast.Expr) (shape, bool) {
 	}
 	if env.record {
 		env.c.Undecided(env.rule, "parser expression "+types.ExprString(e), e.Pos(), "combinator expression not understood")
+		for k, v := range map[string]*packages.Package{"": env.mp} {
+			_ = k
+			if v != nil {
+				shapeIncomplete[strings.TrimPrefix(v.PkgPath, modPath+"/")] = true
+			}
+		}
 	}
 	return shape{}, false
 }
